@@ -382,7 +382,7 @@ func (s *JavaFullListener) EnterMethodDeclaration(ctx *parser.MethodDeclarationC
 		StartLine:         ctx.Identifier().GetStart().GetLine(), // the line of the column below
 		StartLinePosition: ctx.Identifier().GetStart().GetColumn(), // different
 		StopLine:          ctx.GetStop().GetLine(),
-		StopLinePosition:  ctx.Identifier().GetStart().GetColumn() + len(name),
+		StopLinePosition:  ctx.Identifier().GetStart().GetColumn() + utf8.RuneCountInString(name),
 	}
 
 	method := &core_domain.CodeFunction{
